@@ -478,12 +478,30 @@ func spawnWorkers(prop, tier string, seed uint64, workers int, tc tierCfg, scrat
 		}(k)
 	}
 	wg.Wait()
-	for _, e := range errs {
+	var firstErr error
+	for k, e := range errs {
 		if e != nil {
-			return nil, e
+			if firstErr == nil {
+				firstErr = e
+			}
+			// keep what the failed worker had persisted: a finding is a fact independent of
+			// the trouble another run ran into afterwards
+			acc := &workerSummary{Faults: map[string]int{}, Probes: map[string]int{}, Policies: map[string]int{}, Scenarios: map[string]int{}, ViolCount: map[string]int{}}
+			if vb, err := os.ReadFile(filepath.Join(scratch, fmt.Sprintf("viol-%d.jsonl", k))); err == nil {
+				for _, ln := range strings.Split(strings.TrimSpace(string(vb)), "\n") {
+					rr := &RunReport{}
+					if ln != "" && json.Unmarshal([]byte(ln), rr) == nil && len(rr.Viols) > 0 {
+						acc.Viols = append(acc.Viols, rr)
+						for _, v := range rr.Viols {
+							acc.ViolCount[v.Sig]++
+						}
+					}
+				}
+			}
+			sums[k] = acc
 		}
 	}
-	return sums, nil
+	return sums, firstErr
 }
 
 func head(s string, n int) string {
@@ -503,10 +521,19 @@ func tail(s string, n int) string {
 func runMaster(prop, tier string, seed uint64, workers int, tc tierCfg, evidence, scratch, replays, known, only string) int {
 	start := time.Now()
 	kf := loadKnown(known)
-	sums, err := spawnWorkers(prop, tier, seed, workers, tc, scratch, false, 0, only)
-	if err != nil {
-		fmt.Fprintln(os.Stderr, err)
-		return 2
+	sums, workerErr := spawnWorkers(prop, tier, seed, workers, tc, scratch, false, 0, only)
+	if workerErr != nil {
+		anyViol := false
+		for _, s := range sums {
+			if s != nil && len(s.Viols) > 0 {
+				anyViol = true
+			}
+		}
+		fmt.Fprintln(os.Stderr, workerErr)
+		if !anyViol {
+			return 2
+		}
+		fmt.Fprintln(os.Stderr, "simrun: WARNING: a worker ran into machinery trouble (above); violations found by the batch are still confirmed and reported")
 	}
 	// determinism spot check: first 8 runs again, single worker, other GOMAXPROCS
 	detRuns := 8
@@ -516,9 +543,12 @@ func runMaster(prop, tier string, seed uint64, workers int, tc tierCfg, evidence
 	d1, err1 := spawnWorkers(prop, tier, seed, 1, tierCfg{detRuns, tc.MaxWall}, scratch, true, 1, only)
 	d2, err2 := spawnWorkers(prop, tier, seed, 1, tierCfg{detRuns, tc.MaxWall}, scratch, true, 4, only)
 	mism := 0
-	if err1 != nil || err2 != nil {
+	if (err1 != nil || err2 != nil) && workerErr == nil {
 		fmt.Fprintln(os.Stderr, "determinism re-run failed:", err1, err2)
 		return 2
+	}
+	if err1 != nil || err2 != nil {
+		d1, d2 = []*workerSummary{{Hashes: map[string]uint64{}}}, []*workerSummary{{Hashes: map[string]uint64{}}}
 	}
 	for k, v := range d1[0].Hashes {
 		if d2[0].Hashes[k] != v {
@@ -650,12 +680,18 @@ func runMaster(prop, tier string, seed uint64, workers int, tc tierCfg, evidence
 			fmt.Printf("  oracle=%s sig=%s\n  %s\n", r.Viols[0].Oracle, r.Viols[0].Sig, firstLines(r.Viols[0].Msg, 12))
 			exit = 1
 		}
+		if workerErr != nil && exit == 0 {
+			return 2
+		}
 		if unattributed > 0 && exit == 0 {
 			fmt.Fprintln(os.Stderr, "simrun: machinery error: worker processes died but no death could be attributed to a replayable run and no other violation was found")
 			return 2
 		}
 	}
 
+	if workerErr != nil && exit == 0 {
+		return 2 // machinery trouble and nothing it could report: cannot decide
+	}
 	wall := time.Since(start).Seconds()
 	if evidence != "" {
 		writeEvidence(evidence, prop, tier, seed, agg, len(fps), len(cells), wall, maxWall, detRuns, mism, knownSeen, len(unknown), workers)
